@@ -16,7 +16,7 @@ from ..flow import Flow
 from .C06 import fold
 
 GEO = "typhon/geodesy.py"
-EXPECT = {"C07.geodetic": 3, "C07.radius": 3, "C07.sphere": 4, "C07.dist": 5, "C07.fixpoint": 3, "C07.tol": 2, "C07.compose": 2, "C07.models": 2, "C07.los": 1}
+EXPECT = {"C07.losopt": 3, "C07.geodetic": 3, "C07.radius": 3, "C07.sphere": 4, "C07.dist": 5, "C07.fixpoint": 3, "C07.tol": 2, "C07.compose": 2, "C07.models": 2, "C07.los": 1}
 
 sp_, cp_, sl_, cl_ = sp.symbols("s_phi c_phi s_lam c_lam", real=True)
 RELS = [sp_ ** 2 + cp_ ** 2 - 1, sl_ ** 2 + cl_ ** 2 - 1]
@@ -500,7 +500,14 @@ def rule_los(ctx):
     for st in stores:
         t_ = st.targets[0] if isinstance(st, ast.Assign) else st.target
         masks_vars |= {n_.id for n_ in ast.walk(t_.slice) if isinstance(n_, ast.Name)}
-    rate = sorted(masks_vars - {fix, "np"})
+    # a selection mask (`non`: the elements this block is about) restricts every store alike: the table below is about those elements
+    sel_masks = set()
+    for st in flow.stmts:
+        if isinstance(st, ast.Assign) and isinstance(st.targets[0], ast.Name) and st.targets[0].id in masks_vars and st.targets[0].id != fix \
+                and isinstance(st.value, ast.Call) and (dotted(st.value.func) or "").split(".")[-1] in ("logical_and", "logical_or", "logical_not") \
+                and not calls_in(st.value, "isnan"):
+            sel_masks.add(st.targets[0].id)
+    rate = sorted(masks_vars - {fix, "np"} - sel_masks)
     # the northward rate is the local of this block that enters the arccos (not as an index)
     in_slices = {id(x) for n_ in ast.walk(a0.value) if isinstance(n_, ast.Subscript) for x in ast.walk(n_.slice)}
     assigned_here = {t_.id for st in body for t_ in ast.walk(st) if isinstance(t_, ast.Name) and isinstance(t_.ctx, ast.Store)}
@@ -519,6 +526,7 @@ def rule_los(ctx):
         for st in stores:
             t_ = st.targets[0] if isinstance(st, ast.Assign) else st.target
             env = {fix: isfix, N: sn}
+            env.update({m_: True for m_ in sel_masks})
             if E:
                 env[E] = se
             try:
@@ -541,12 +549,93 @@ def rule_los(ctx):
         if val not in want:
             bad = {"azimuth was NaN": isfix, "sign of northward rate %s" % N: sn, "sign of eastward rate %s" % E: se, "azimuth becomes": str(val), "expected": [str(w) for w in want]}
             break
+    # shapes: the NaN mask is taken from the whole azimuth array, so the rates it is combined with must have that shape too - rates
+    # computed from `x[non]` are the compressed 1-d selection and only fit 1-d arguments
+    def compressed(name):
+        ds = [st for st in body if isinstance(st, ast.Assign) and isinstance(st.targets[0], ast.Name) and st.targets[0].id == name]
+        if len(ds) != 1:
+            raise AnalysisError("cartposlos2geocentric: definition of the rate %s not found" % name)
+        v_ = ds[0].value
+        if isinstance(v_, ast.Call) and (dotted(v_.func) or "").split(".")[-1] in ("zeros", "zeros_like", "empty", "full", "full_like", "empty_like"):
+            return False
+        return any(isinstance(n_, ast.Subscript) and isinstance(n_.slice, ast.Name) and n_.slice.id in sel_masks | masks_vars | {"non"} for n_ in ast.walk(v_))
+    fix_compressed = any(isinstance(n_, ast.Subscript) and isinstance(n_.slice, ast.Name) and n_.slice.id in sel_masks | {"non"} and norm(n_.value) == aa
+                         for n_ in ast.walk(fixdef[0].value))
+    rates_compressed = [v for v in [N] + ([E] if E else []) if compressed(v)]
+    shape_ok = (not rates_compressed and not fix_compressed) or (len(rates_compressed) == 1 + bool(E) and fix_compressed)
+    ctx.ob("cartposlos2geocentric.mask_shapes", shape_ok, "NaN mask from %s; rates restricted to the selection: %s" % (
+        "the selected azimuths" if fix_compressed else "the whole azimuth array", rates_compressed or "none"),
+        "the NaN mask and the rates it is combined with have one shape (arguments of any broadcastable shape): rates computed from x[non] are 1-d, the mask "
+        "np.isnan(aa) has the shape of the arguments", node=fixdef[0], func=f,
+        witness=None if shape_ok else {"x.shape": [2, 3], "raises": "ValueError: operands could not be broadcast together with shapes (2,3) (6,)"})
     ctx.models.append({"rule": "C07.los", "cases": 18, "exhaustive": True, "domain": "NaN flag x sign(northward) x sign(eastward)"})
     ctx.ob("cartposlos2geocentric.azimuth_signs", bad is None, "; ".join(norm(s_)[:70] for s_ in stores),
            "NaN -> 0 when the line of sight heads north (%s > 0), 180 when south; otherwise mirrored to negative exactly for a westward component" % N,
            node=stores[0], func=f, witness=bad)
 
 
+def rule_los_options(ctx):
+    ctx.rule("C07.losopt", "T1", "cartposlos2geocentric with ppc / the optional start values: zenith angles cover [0, 180], the azimuth is computed; "
+             "geocentricposlos2cart checks arguments of any shape")
+    f = ctx.func(GEO, "cartposlos2geocentric")
+    flow = Flow(f)
+    # za = arcsin(ppc / r) covers [0, 90] only: the sign of the radial component tells the downward-looking directions apart
+    asin = [st for st in flow.stmts if isinstance(st, ast.Assign) and isinstance(st.targets[0], ast.Name) and calls_in(st.value, "arcsin")]
+    if len(asin) != 1:
+        raise AnalysisError("cartposlos2geocentric: za from arcsin(ppc / r) not found")
+    za = asin[0].targets[0].id
+    blk = parent(asin[0])
+    body = next(getattr(blk, fl_) for fl_ in ("body", "orelse") if any(x is asin[0] for x in getattr(blk, fl_, [])))
+    later = [st for st in body[[k_ for k_, x in enumerate(body) if x is asin[0]][0] + 1:]
+             if isinstance(st, ast.Assign) and norm(st.targets[0]).split("[")[0] == za]
+    radial = None
+    for st in flow.stmts:
+        if isinstance(st, ast.Assign) and isinstance(st.targets[0], ast.Name) and calls_in(st.value, "clip") and "sinlat" in norm(st.value):
+            radial = st.targets[0].id
+    if radial is None:
+        raise AnalysisError("cartposlos2geocentric: radial component of the line of sight not found")
+    fixed = False
+    fact = "za = %s only" % norm(asin[0].value)
+    for st in later:
+        t_ = norm(st.value).replace(" ", "")
+        tgt = norm(st.targets[0]).replace(" ", "")
+        if t_ in ("np.where(%s<0,180-%s,%s)" % (radial, za, za), "np.where(%s>=0,%s,180-%s)" % (radial, za, za)) and tgt == za:
+            fixed = True
+            fact = "%s = %s" % (za, norm(st.value))
+        elif tgt in ("%s[%s<0]" % (za, radial),) and t_ in ("180-%s[%s<0]" % (za, radial),):
+            fixed = True
+            fact = norm(st)
+        else:
+            raise AnalysisError("cartposlos2geocentric: re-definition %s of the zenith angle in the ppc branch not understood" % norm(st)[:70])
+    ctx.ob("cartposlos2geocentric.ppc_zenith", fixed, fact, "za = arcsin(ppc / r), mirrored to 180 - za where the radial component of the line of sight is negative "
+           "(downward-looking): arcsin alone returns 85 for 95 degrees", node=asin[0], func=f, witness=None if fixed else {"za0": 110, "returned": 70})
+    # with the optional start values the azimuth of the general direction is still computed
+    def about_aa0(st_):
+        t_ = flow.resolve(st_.test, at=st_, depth=2, stop=tuple(f.all_params))
+        return any(isinstance(n_, ast.Name) and n_.id == "aa0" for n_ in ast.walk(t_)) and "None" in str(norm(t_))
+    opt = [st for st in walk_no_nested(f.node) if isinstance(st, ast.If) and about_aa0(st) and any(isinstance(x, ast.Assign) and isinstance(x.targets[0], ast.Subscript) and norm(x.targets[0].value) == "aa"
+                                                     for b_ in st.body for x in ast.walk(b_))]
+    if len(opt) != 1:
+        raise AnalysisError("cartposlos2geocentric: the branch for the optional start values was not found")
+    aa = "aa"
+    stores = [st for st in walk_no_nested(opt[0]) if isinstance(st, ast.Assign) and isinstance(st.targets[0], ast.Subscript) and norm(st.targets[0].value) == aa
+              and any(st is x for b_ in opt[0].body for x in ast.walk(b_))]
+    general = [st for st in stores if calls_in(st.value, "arctan2")]
+    ctx.ob("cartposlos2geocentric.optional_azimuth", bool(general), "stores into the azimuth with the optional start values: %s" % [norm(s_)[:50] for s_ in stores],
+           "besides the north / south cases pinned by aa0, the azimuth of every other direction is computed (arctan2 of the eastward and northward components): "
+           "it stayed 0", node=stores[0] if stores else opt[0], func=f, witness=None if general else {"aa0": [-120, -45, 30, 60, 100, 150], "returned": [0, 0, 0, 0, 0, 0]})
+    # geocentricposlos2cart: range checks on arrays of any shape
+    g = ctx.func(GEO, "geocentricposlos2cart")
+    builtin_any = [c for c in calls_in(g.node, ("any", "all")) if isinstance(c.func, ast.Name) and c.args
+                   and isinstance(c.args[0], (ast.Compare, ast.BoolOp, ast.Name, ast.UnaryOp))]
+    np_any = [c for c in calls_in(g.node, ("any", "all")) if isinstance(c.func, ast.Attribute)]
+    if not builtin_any and not np_any:
+        raise AnalysisError("geocentricposlos2cart: range checks not found")
+    ctx.ob("geocentricposlos2cart.checks", not builtin_any, "builtin any()/all() on arrays: %s" % ([norm(c)[:40] for c in builtin_any] or "none"),
+           "np.any(...): the builtin any() iterates over the first axis and raises for arguments with more than one dimension",
+           node=builtin_any[0] if builtin_any else np_any[0], func=g, witness=None if not builtin_any else {"shape": [2, 3], "raises": "ValueError: truth value of an array is ambiguous"})
+
+
 def run(ctx):
-    for r in (rule_geodetic, rule_radius, rule_sphere, rule_dist, rule_fixpoint, rule_tol, rule_compose, rule_models, rule_los):
+    for r in (rule_geodetic, rule_radius, rule_sphere, rule_dist, rule_fixpoint, rule_tol, rule_compose, rule_models, rule_los, rule_los_options):
         ctx.attempt(r, ctx)
